@@ -143,6 +143,7 @@ type Unit struct {
 	tiDone    map[string]bool
 	frameCount int
 	frameSites map[string]int
+	atAsserts map[*ast.CallExpr][]*Clause
 }
 
 type engineError struct{ msg string }
